@@ -226,6 +226,14 @@ def judge_equivalence(res, tag, info, in_cond, out_ast, points, digits, need_pos
             din = delta(in_cond, p)
         except ZeroDivisionError:
             continue
+        half = Fraction(1, 2 * 10 ** digits)
+        # rounding a constant inside a divisor moves the pole by up to half a unit: points where a divisor of either
+        # side comes that close to zero cannot be compared (the values blow up there)
+        try:
+            if propagated(in_cond, p, half) is None or propagated(out_ast, p, half) is None:
+                continue
+        except (KeyError, ZeroDivisionError, ValueError):
+            pass
         try:
             dout = delta(out_ast, p)
         except ZeroDivisionError:
@@ -549,6 +557,12 @@ def check_case(case):
                 vin = [_truth(c, p, Fraction(0)) for c in eqs + conds]
             except ZeroDivisionError:
                 continue
+            half = Fraction(1, 2 * 10 ** digits)
+            try:
+                if any(propagated(x, p, half) is None for x in list(eqs + conds) + list(outs)):
+                    continue      # a divisor within rounding distance of zero: the pole may have moved (see above)
+            except (KeyError, ZeroDivisionError, ValueError):
+                pass
             tol = max([allowance(o, p, digits) for o in outs] + [Fraction(1, 10 ** 9)]) * 2
             try:
                 near = any(abs(delta(c, p)) <= tol and not _is_eq(c) for c in conds) or any(abs(delta(o, p)) <= tol for o in outs if not _is_eq(o))
@@ -659,8 +673,20 @@ def gen(ch, tier):
     shape = ch.weighted([(10, "poly"), (2, "quotient"), (2, "factored"), (1, "square")])
     maxdeg = ch.weighted([(3, 1), (3, 2), (2, 3)])
 
+    fine_digits = []
+
     def side():
         if shape == "quotient":
+            if ch.flag(0.4):
+                # the divisor is a fluent plus a constant that needs the requested decimals (k +- 1e-5, or one with
+                # 5-6 decimals, then also printed with 5 or 6)
+                if ch.flag(0.5):
+                    c = str(ch.int(0, 9)) + "." + "".join(ch.choice("0123456789") for _ in range(ch.int(4, 5))) + ch.choice("123456789")
+                    fine_digits.append(ch.choice([5, 6, 6]))
+                else:
+                    c = gen_coef(ch, ch.choice(["near", "long", "dec"]))
+                den = ["+", list(ch.choice(terms)), c]
+                return ["/", gen_poly(ch, terms, 1, cls, ch.int(1, 2)), den]
             return ["/", gen_poly(ch, terms, min(maxdeg, 2), cls, 2), gen_monomial(ch, terms, 1, "int")]
         if shape == "square":
             # a product of proportional sums: sympy turns it into a power with a compound base, c * (x + y)**2
@@ -675,9 +701,13 @@ def gen(ch, tier):
     rhs = (lambda: gen_coef(ch, cls) if ch.flag(0.5) else gen_poly(ch, terms, 1, cls, 1))
     if entry == "expr":
         case["expr"] = side()
+        if fine_digits:
+            case["digits"] = fine_digits[0]
         return case
     op = "=" if entry == "eq" else ch.choice(["<", "<=", ">", ">="])
     case["conds"] = [[op, side(), rhs()]]
+    if fine_digits:
+        case["digits"] = digits = fine_digits[0]
     if entry in ("ineq", "print") and len(terms) >= 2 and ch.flag(0.6):
         eqs = []
         used = set()
